@@ -28,21 +28,58 @@ def exclude_nonblock_findings(q):
     return q
 
 
-def pick(tier, pred, limit_per_mod, bus_excl=False):
-    seen = {}
-    out = []
+def _features(sk):
+    """event-kind bigrams of a skeleton (kind + first argument), used to pick a diverse subset"""
+    toks = []
+    for ev in sk.split():
+        m = re.match(r"([A-Za-z]+)(?:\((\d+))?", ev)
+        toks.append((m.group(1) + (m.group(2) or "")) if m else ev)
+    f = set(toks)
+    f.update(a + ">" + b for a, b in zip(toks, toks[1:]))
+    f.update(a + ">>" + c for a, c in zip(toks, toks[2:]))
+    return f
+
+
+def pick(tier, pred, limit_per_mod, bus_excl=False, prefer=()):
+    """the skeleton queries of C04-C09 that satisfy pred; per (property, harness) at most limit_per_mod of them, chosen
+    greedily so that together they cover as many different event successions as possible (deterministic)"""
+    cands = {}
     names = set()
     for modname, q, sk in all_skeleton_queries(tier):
         if not pred(sk, q):
             continue
-        key = (modname, q.harness)
-        if seen.get(key, 0) >= limit_per_mod:
-            continue
         if q.name in names:
             continue
         names.add(q.name)
-        seen[key] = seen.get(key, 0) + 1
-        if bus_excl:
-            exclude_nonblock_findings(q)
-        out.append(q)
+        cands.setdefault((modname, q.harness), []).append((q, sk))
+    out = []
+    for key in sorted(cands):
+        lst = cands[key]
+        if len(lst) > limit_per_mod:
+            # the first half in the module's own order (its curated, fully executable skeletons come first),
+            # the second half greedily for event successions not covered yet
+            half = limit_per_mod // 2
+            if prefer:
+                # skeletons showing the situations this property is about come first (a third of the budget)
+                pref = [(q, sk) for q, sk in lst if any(re.search(rx, sk) for rx in prefer)][:limit_per_mod // 3]
+                pn = set(q.name for q, sk in pref)
+                lst = pref + [(q, sk) for q, sk in lst if q.name not in pn]
+                half = max(half, len(pref))
+            chosen = [q for q, sk in lst[:half]]
+            covered = set()
+            for q, sk in lst[:half]:
+                covered |= _features(sk)
+            rest = [(q, sk, _features(sk)) for q, sk in lst[half:]]
+            while rest and len(chosen) < limit_per_mod:
+                best = max(range(len(rest)), key=lambda i: (len(rest[i][2] - covered), -i))
+                q, sk, f = rest.pop(best)
+                chosen.append(q)
+                covered |= f
+            lst2 = chosen
+        else:
+            lst2 = [q for q, sk in lst]
+        for q in lst2:
+            if bus_excl:
+                exclude_nonblock_findings(q)
+            out.append(q)
     return out
